@@ -64,6 +64,9 @@ def child_main(spec_path: str, out_path: str) -> None:
     sys.path.insert(0, spec["repo"])
     logging.disable(logging.CRITICAL)
 
+    FORCE = spec.get("force")  # {"module", "tag", "s_thread", "a_thread"}: the forced two-route schedule
+    S_IN = threading.Event()    # the string-route thread is inside exec_module of the target (holds its module lock)
+    A_HAS = threading.Event()   # the attribute-route thread holds the package lock
     EVENTS: list = []
     TID: dict = {}
     EXEC_COUNT: dict = {}
@@ -87,6 +90,11 @@ def child_main(spec_path: str, out_path: str) -> None:
         def exec_module(self, module):
             EXEC_COUNT[self._n] = EXEC_COUNT.get(self._n, 0) + 1
             rec("exec", self._n)
+            if FORCE and self._n == FORCE["module"] and TID.get(threading.get_ident()) == FORCE["s_thread"]:
+                # pause right after the body "starts", module lock held, until the other route owns the package lock
+                S_IN.set()
+                rec("paused", self._n)
+                A_HAS.wait(3.0)
             try:
                 self._l.exec_module(module)
             except BaseException:
@@ -130,10 +138,15 @@ def child_main(spec_path: str, out_path: str) -> None:
             self._real = real
             self._tag = tag
 
+        def _forced(self):
+            if FORCE and self._tag == FORCE["tag"] and TID.get(threading.get_ident()) == FORCE["a_thread"]:
+                A_HAS.set()
+
         def acquire(self, *a, **k):
             r = self._real.acquire(*a, **k)
             if r:
                 rec("acq", self._tag)
+                self._forced()
             return r
 
         def release(self):
@@ -143,6 +156,7 @@ def child_main(spec_path: str, out_path: str) -> None:
         def __enter__(self):
             self._real.acquire()
             rec("acq", self._tag)
+            self._forced()
             return self
 
         def __exit__(self, *a):
@@ -271,6 +285,8 @@ def child_main(spec_path: str, out_path: str) -> None:
         if kind == "optimize":
             e = sqlglot.parse_one(op[1], read=op[2])
             return "opt:" + O.optimize(e, dialect=op[2]).sql(dialect=op[2])
+        if kind == "import":
+            return describe(real_import_module(op[1]))
         if kind == "dialect":
             from sqlglot.dialects.dialect import Dialect
 
@@ -290,6 +306,8 @@ def child_main(spec_path: str, out_path: str) -> None:
             barrier.wait(timeout=20)
         except Exception:
             pass
+        if FORCE and i == FORCE["a_thread"]:
+            S_IN.wait(5.0)
         for j, op in enumerate(spec["threads"][i]):
             CUR_OP[i] = j
             before = sum(EXEC_COUNT.values())
@@ -354,7 +372,7 @@ import subprocess  # noqa: E402
 import tempfile  # noqa: E402
 
 sys.path.insert(0, os.path.dirname(os.path.dirname(os.path.dirname(os.path.abspath(__file__)))))
-from vf.core import Check, REPO, HarnessError  # noqa: E402
+from vf.core import Check, REPO, HarnessError, lean_str  # noqa: E402
 
 MODULES = ["Model.Threads", "Proofs.Threads", "Generated.C19", "Properties.C19"]
 P = "SqlglotModel.Properties.C19."
@@ -375,6 +393,11 @@ THEOREMS = [P + n for n in (
     "results_agree",
     "dispatch_race_benign",
     "demo_complete",
+    "generated_no_lazy_reentry",
+    "lock_order_no_deadlock",
+    "source_two_routes_no_deadlock",
+    "two_routes_lock_ownership",
+    "reentry_two_routes_deadlock",
 )]
 
 PYTHON = sys.executable
@@ -511,6 +534,166 @@ def try_load_facts() -> dict:
     return out
 
 
+# ---- lock order: does code that runs at import time re-enter a lazy package __getattr__? -------------------------
+def _module_path(mod: str):
+    base = os.path.join(REPO, *mod.split("."))
+    if os.path.isfile(base + ".py"):
+        return base + ".py", False
+    if os.path.isfile(os.path.join(base, "__init__.py")):
+        return os.path.join(base, "__init__.py"), True
+    return None, False
+
+
+def _is_type_checking(test: ast.AST) -> bool:
+    return (isinstance(test, ast.Name) and test.id == "TYPE_CHECKING") or \
+           (isinstance(test, ast.Attribute) and test.attr == "TYPE_CHECKING")
+
+
+def _import_time_nodes(tree: ast.Module):
+    """every ast node evaluated while the module is imported: top-level statements, class bodies, decorators,
+    default arguments, base classes — NOT the bodies of functions / lambdas, not `if TYPE_CHECKING:` blocks"""
+    stack = list(reversed(tree.body))
+    while stack:
+        node = stack.pop()
+        if isinstance(node, (ast.FunctionDef, ast.AsyncFunctionDef)):
+            for d in node.decorator_list:
+                stack.append(d)
+            for d in list(node.args.defaults) + [k for k in node.args.kw_defaults if k is not None]:
+                stack.append(d)
+            continue
+        if isinstance(node, ast.Lambda):
+            for d in list(node.args.defaults) + [k for k in node.args.kw_defaults if k is not None]:
+                stack.append(d)
+            continue
+        if isinstance(node, ast.If) and _is_type_checking(node.test):
+            stack.extend(reversed(node.orelse))
+            continue
+        yield node
+        stack.extend(reversed(list(ast.iter_child_nodes(node))))
+
+
+def _dotted(node: ast.AST):
+    parts = []
+    while isinstance(node, ast.Attribute):
+        parts.append(node.attr)
+        node = node.value
+    if isinstance(node, ast.Name):
+        parts.append(node.id)
+        return list(reversed(parts))
+    return None
+
+
+def _real_names(init_path: str) -> set:
+    """names bound by the package __init__ itself at import time (never go through its __getattr__)"""
+    tree = ast.parse(open(init_path, encoding="utf-8").read())
+    names = set()
+    for node in _import_time_nodes(tree):
+        if isinstance(node, (ast.Import, ast.ImportFrom)):
+            for a in node.names:
+                names.add((a.asname or a.name).split(".")[0])
+        elif isinstance(node, ast.Name) and isinstance(node.ctx, ast.Store):
+            names.add(node.id)
+        elif isinstance(node, ast.ClassDef):
+            names.add(node.name)
+    for st in tree.body:
+        if isinstance(st, (ast.FunctionDef, ast.AsyncFunctionDef)):
+            names.add(st.name)
+    return names
+
+
+def scan_reentries(chk: Check) -> dict:
+    import sqlglot.dialects as D
+
+    lazy_d = set(getattr(D, "MODULE_BY_ATTRIBUTE", {}))
+    real = {"sqlglot.dialects": _real_names(os.path.join(REPO, "sqlglot", "dialects", "__init__.py")),
+            "sqlglot.optimizer": _real_names(os.path.join(REPO, "sqlglot", "optimizer", "__init__.py"))}
+
+    def is_lazy(pkg: str, name: str, submods: set) -> bool:
+        if name.startswith("__") or name in real[pkg]:
+            return False
+        if pkg == "sqlglot.dialects":
+            return name in lazy_d
+        return f"{pkg}.{name}" not in submods  # optimizer: anything not bound falls into __getattr__
+
+    roots = []
+    for sub in ("dialects", "optimizer"):
+        for fn in sorted(os.listdir(os.path.join(REPO, "sqlglot", sub))):
+            if fn.endswith(".py") and fn != "__init__.py":
+                roots.append(f"sqlglot.{sub}.{fn[:-3]}")
+    seen: dict = {}
+    sites = []
+    todo = list(roots)
+    while todo:
+        mod = todo.pop()
+        if mod in seen:
+            continue
+        path, is_pkg = _module_path(mod)
+        if path is None:
+            continue
+        seen[mod] = path
+        if mod in ("sqlglot.dialects", "sqlglot.optimizer"):
+            continue  # the packages' own __init__ define the lazy __getattr__
+        try:
+            tree = ast.parse(open(path, encoding="utf-8").read())
+        except SyntaxError as e:
+            chk.broken.append({"kind": "translator", "what": f"C19 translator: cannot parse {mod}: {e}"})
+            continue
+        pkg_of_mod = mod if is_pkg else mod.rsplit(".", 1)[0]
+        alias: dict = {}      # local name -> dotted package it stands for
+        submods: set = set()  # sqlglot.optimizer.x imported as a module by this file (a real attribute afterwards)
+        nodes = list(_import_time_nodes(tree))
+        for node in nodes:
+            if isinstance(node, ast.Import):
+                for a in node.names:
+                    if a.name.startswith("sqlglot"):
+                        todo.append(a.name)
+                        parts = a.name.split(".")
+                        for i in range(1, len(parts)):
+                            todo.append(".".join(parts[:i]))
+                        submods.add(a.name)
+                        if a.asname:
+                            alias[a.asname] = a.name
+                        else:
+                            alias["sqlglot"] = "sqlglot"
+            elif isinstance(node, ast.ImportFrom):
+                base = node.module or ""
+                if node.level:
+                    up = pkg_of_mod.split(".")
+                    up = up[: len(up) - (node.level - 1)]
+                    base = ".".join(up + ([node.module] if node.module else []))
+                if not base.startswith("sqlglot"):
+                    continue
+                todo.append(base)
+                for a in node.names:
+                    full = f"{base}.{a.name}"
+                    if _module_path(full)[0]:
+                        todo.append(full)
+                        submods.add(full)
+                        if full in ("sqlglot.dialects", "sqlglot.optimizer"):
+                            alias[a.asname or a.name] = full
+        for node in nodes:
+            if isinstance(node, ast.ImportFrom) and node.level == 0 and node.module in real:
+                for a in node.names:
+                    if is_lazy(node.module, a.name, submods if node.module == "sqlglot.optimizer" and False else set()):
+                        sites.append((mod, node.lineno, f"from {node.module} import {a.name}"))
+            elif isinstance(node, ast.Attribute) and isinstance(node.ctx, ast.Load):
+                d = _dotted(node)
+                if not d:
+                    continue
+                if d[0] in alias and alias[d[0]] in real:
+                    d = alias[d[0]].split(".") + d[1:]
+                elif d[0] in alias and d[0] == "sqlglot":
+                    pass
+                else:
+                    continue
+                if len(d) == 3 and ".".join(d[:2]) in real and is_lazy(".".join(d[:2]), d[2], submods):
+                    sites.append((mod, node.lineno, ".".join(d)))
+    scanned = sorted(seen)
+    idx = {m: i for i, m in enumerate(scanned)}
+    sites = sorted(set(sites))
+    return {"scanned": scanned, "sites": sites, "modules": sorted({idx[m] for m, _, _ in sites})}
+
+
 def translate(chk: Check) -> str:
     import sqlglot.dialects as D
     import sqlglot.optimizer as O
@@ -519,6 +702,11 @@ def translate(chk: Check) -> str:
     fo = lock_facts(chk, "sqlglot/optimizer/__init__.py", O)
     tl = try_load_facts()
     chk.cov["lock_facts"] = {"dialects": fd, "optimizer": fo, "try_load": tl}
+    re = scan_reentries(chk)
+    chk.cov["lock_order_scan"] = {"modules_scanned": len(re["scanned"]), "reentry_sites": [f"{m}:{ln}: {w}" for m, ln, w in re["sites"]]}
+    chk.cov["_reentry_modules"] = sorted({m for m, _, _ in re["sites"]})
+    if len(re["scanned"]) < 60:
+        chk.broken.append({"kind": "translator", "what": f"C19 translator: structure changed: only {len(re['scanned'])} modules reachable from sqlglot/dialects and sqlglot/optimizer"})
 
     def lf(f):
         return ("{ kind := .%s, lockDefs := %d, imports := %d, importsInside := %d, writes := %d, writesInside := %d }"
@@ -538,6 +726,12 @@ def translate(chk: Check) -> str:
         "    (0: that path relies on importlib's per-module lock — an assumption of the check, not modelled) -/\n"
         f"def tryLoadImports : Nat := {tl['imports']}\n"
         f"def tryLoadImportsUnderPackageLock : Nat := {tl['imports_in']}\n"
+        "/-- lock order: modules executed while a dialect / optimizer module is imported (sqlglot/dialects/*, sqlglot/optimizer/*\n"
+        "    and the module-level import closure inside sqlglot); `reentryModules` = indices (in the sorted list) of those whose\n"
+        "    import-time code goes through a lazy package __getattr__ again, `reentrySites` = where -/\n"
+        f"def scannedModules : Nat := {len(re['scanned'])}\n"
+        f"def reentryModules : List Nat := [{', '.join(str(i) for i in re['modules'])}]\n"
+        "def reentrySites : List String := [" + ", ".join(lean_str(f"{m}:{ln}: {w}") for m, ln, w in re["sites"]) + "]\n"
         "end SqlglotModel.Generated.C19\n"
     )
 
@@ -684,6 +878,24 @@ def gen_spec(chk: Check, kind: str, gen_unsafe: set) -> dict:
             threads.append(prog)
     spec["threads"] = threads
     return spec
+
+
+def route_targets() -> list:
+    """(package tag, attribute, module) for every module that has both an attribute route and a string/import route"""
+    names, by_attr = dialect_tables()
+    out = [("dialects", nm, f"sqlglot.dialects.{by_attr[nm]}") for nm in names if nm in by_attr]
+    _, subs = optimizer_names()
+    out += [("optimizer", sub, f"sqlglot.optimizer.{sub}") for sub in subs]
+    return out
+
+
+def route_spec(tag: str, attr: str, module: str) -> dict:
+    """two threads, first use of one module, one per route; the interleaving is forced by the harness: the string-route
+    thread is paused inside exec_module (module lock held) until the attribute-route thread owns the package lock"""
+    second = ["dialect", module.rsplit(".", 1)[1]] if tag == "dialects" else ["import", module]
+    return {"mode": "R", "probe": False, "switch": 1e-6, "hashseed": 0, "timeout": 7,
+            "force": {"module": module, "tag": tag, "a_thread": 0, "s_thread": 1},
+            "threads": [[["attr", tag, attr]], [second]]}
 
 
 def rand_call(rng, d, low, mix=True):
@@ -1060,6 +1272,9 @@ def process_outputs(chk: Check, runner: Runner, base: Baseline, outs: list, kind
                          "module_bodies_run": first_use, "lock_contended": contended,
                          "first_ops": [p[:2] for p in spec["threads"][:3]]} if stats["samples"] < 6 else None)
         stats["samples"] += 1
+        if mode == "R":
+            forced = any(k == "paused" for (_, k, _) in out.get("events", []))
+            chk.count("route:forced" if forced else "route:not-forced")
         for key, what, detail in check_run(chk, out, base, runner):
             stats["violating"] += 1
             chk.report_violation(key, what, {"spec": public_spec(spec), "observed": detail,
@@ -1174,7 +1389,21 @@ def run(chk: Check) -> None:
                     c = json.load(open(os.path.join(corpus_dir, fn)))
                     c.pop("note", None)
                     corpus.append(c)
-        specs = corpus + specs
+        # the forced two-route schedule: every module in thorough; in quick every dialect module plus a
+        # rotating subset of the optimizer modules (everything, flagged modules first, when a tie is broken)
+        targets = route_targets()
+        flagged = set(chk.cov.pop("_reentry_modules", []))
+        pre = {"sqlglot.optimizer.scope"}
+        targets = [tg for tg in targets if tg[2] not in pre]
+        if chk.quick and not chk.broken:
+            dl = [tg for tg in targets if tg[0] == "dialects"]
+            op = [tg for tg in targets if tg[0] == "optimizer"]
+            pick = dl + chk.rng.sample(op, min(4, len(op)))  # every dialect (≈1 s each, in parallel), rotating optimizer subset
+        else:
+            pick = sorted(targets, key=lambda tg: tg[2] not in flagged)
+        routes = [route_spec(*tg) for tg in pick]
+        chk.cov["route_runs"] = {"targets": len(targets), "run": len(routes)}
+        specs = corpus + routes + specs
         base.ensure(list(all_ops(specs)), True)
         t0 = time.time()
         order_dependence(chk, runner, base, specs, workers)
